@@ -401,9 +401,20 @@ def cli_case(ctx, k):
         no_index = [] if (plain and n_pre <= 1 and n_suf <= 1) else ["--no-index"]
         if not no_index:
             ctx.count("cli_default_mode_without_index")
-        inputs = climon.write_inputs(d, recs)
         adargs = [x for sp in specs for x in render_spec(rng, sp)]
-        argv = adargs + ["-n", str(times), "-e", "0.1", "-O", "3"] + no_index + ["--rename", "{id} {adapter_name}", "-o", "out.fq"] + inputs
+        as_r2 = rng.random() < 0.35
+        if as_r2:
+            # the same adapter list given for the second read of a pair (-A/-G/-B): the rules are those of the first read
+            ctx.count("cli_runs_with_the_adapters_on_r2")
+            adargs = [x.upper() if j % 2 == 0 else x for j, x in enumerate(adargs)]
+            dummy = [(n_, "".join(rng.choice("ACGT") for _ in range(rng.randint(5, 20))), None) for n_, _s, _q in recs]
+            dummy = [(n_, s_, "I" * len(s_)) for n_, s_, _ in dummy]
+            inputs = climon.write_inputs(d, dummy, recs)
+            io = ["-o", "o1.fq", "-p", "out.fq"]
+        else:
+            inputs = climon.write_inputs(d, recs)
+            io = ["-o", "out.fq"]
+        argv = adargs + ["-n", str(times), "-e", "0.1", "-O", "3"] + no_index + ["--rename", "{id} {adapter_name}"] + io + inputs
         run = climon.run(d, argv, trace=False)
         case = climon.case_record(argv, d, inputs)
         case["cli_k"] = k
@@ -427,7 +438,7 @@ def cli_case(ctx, k):
                 last = m
                 start, end = ref_trimmed_interval(m, start, end)
             o = outs.get(fastx.rid(name))
-            ctx.case(("cli", str(argv[:-3]), s) if last is not None else None)
+            ctx.case(("cli", str(argv[:-len(inputs)]), s) if last is not None else None)
             if any(sp["type"] == "linked" for sp in specs):
                 ctx.count("cli_reads_with_linked_adapters")
             if o is None:
